@@ -216,11 +216,14 @@ def gen_config(rng, with_decimal=False, decimal_widths=(3, 6, 8, 12, 15)):
             # the merchant-name processor: with the packaged pattern, with no pattern, with an empty one
             pat = pkg_config()['43']['field_processor_config']
             fc.update(field_type='LLVAR', field_length=0, field_processor='DE43')
-            which = rng.randrange(3)
+            which = rng.randrange(4)
             if which == 0:
                 fc['field_processor_config'] = pat
             elif which == 1:
                 fc['field_processor_config'] = ''
+            elif which == 2:
+                # a caller's own pattern, not anchored: it applies at the START of the value only (re.match)
+                fc['field_processor_config'] = r'(?P<DE43_NAME>[A-Z]+)\\(?P<DE43_ADDRESS>[A-Z 0-9]+)'
         elif r < 0.90:
             fc.update(field_type='LLVAR', field_length=rng.choice([0, 11, 23]))
         else:
@@ -337,6 +340,13 @@ def gen_value(rng, fc, codec, length=None):
     if pyt == 'datetime':
         d = gen_datetime(rng, fc.get('field_date_format', '%y%m%d'))
         return d, d
+    if pyt == 'decimal' and rng.random() < 0.12:
+        # zero, in its different spellings (a value that is "false" but present)
+        w = fc['field_length'] if ft not in ('LLVAR', 'LLLVAR') else 0
+        for s in rng.sample(['0', '0.0', '0.00', '00'], 4):
+            v = decimal.Decimal(s)
+            if w == 0 or format(v, f'0{w}f') == format(v, 'f').rjust(w, '0'):
+                return v, v
     if pyt == 'decimal' and ft in ('LLVAR', 'LLLVAR'):
         n = rng.randrange(1, 19)
         frac = rng.randrange(0, n - 1) if n > 2 else 0
@@ -377,6 +387,8 @@ def gen_value(rng, fc, codec, length=None):
         return t, t
     if proc == 'DE43' and rng.random() < 0.7:
         name = text(rng, 'ascii', rng.randrange(1, 23), 'digits') + 'A'
+        if rng.random() < 0.15:
+            name = name[:1] + '\n' + name[1:]        # a line feed in the name: the pattern's '.' does not cross it
         t = (name + '\\' + 'STREET 1' + '\\' + 'TOWN' + '\\' + '2000'.ljust(10) + 'NSW' + 'AUS')
         if len(t) <= maxvar:
             return t, t
